@@ -235,6 +235,30 @@ class Builder:
         out = os.path.join(outdir, 'fungible')
         return out if self.link(objs, out, SAN) else None
 
+    def build_rpc(self, seed, count):
+        outdir = self.path('rpc_%d_%d' % (seed, count))
+        marker = os.path.join(outdir, '.done')
+        if not os.path.exists(marker):
+            r = subprocess.run([sys.executable, os.path.join(ROOT, 'verif', 'gen_ifaces.py'), '--seed', str(seed), '--count', str(count), '--outdir', outdir],
+                               capture_output=True, text=True)
+            if r.returncode != 0:
+                log('GEN-FAILED', r.stderr)
+                return None
+            open(marker, 'w').write(r.stdout)
+        inc = ['-I', outdir]
+        units = [(os.path.join(ROOT, 'kit', 'rcdrv.cc'), self.path('rcdrv.o'), SAN + ['-O1']),
+                 (os.path.join(ROOT, 'harness', 'rpc.cc'), self.path('rpc.o'), SAN + ['-O1'])]
+        objs = [self.path('rcdrv.o'), self.path('rpc.o')]
+        for k in list(range(count)) + ['index']:
+            name = 'rpc_iface_%s' % k if k != 'index' else 'rpc_index'
+            obj = os.path.join(outdir, name + '.o')
+            units.append((os.path.join(outdir, name + '.cc'), obj, SAN + ['-O0'] + inc))
+            objs.append(obj)
+        if not self.compile_many(units):
+            return None
+        out = os.path.join(outdir, 'rpc')
+        return out if self.link(objs, out, SAN) else None
+
     def gen_consts(self, seed, count=40):
         outdir = self.path('consts_%d_%d' % (seed, count))
         hdr = os.path.join(outdir, 'gen_consts.h')
@@ -355,6 +379,8 @@ def resolve_binary(b, target, seed):
     if parts[0] in ('codec', 'fuzz'):
         bins = b.build_codec(parts[1], seed if parts[1] == 'random' else 1, fuzz=(parts[0] == 'fuzz'))
         return bins[int(parts[2])] if bins else None
+    if parts[0] == 'rpc':
+        return b.build_rpc(int(parts[1]), int(parts[2]))
     if parts[0] == 'siphash':
         return b.build_siphash(int(parts[1]), int(parts[2]))
     if parts[0] == 'fungible':
